@@ -14,6 +14,10 @@ over Z:  `//` -> Z.div, `%` -> Z.modulo, raise/assert -> None, `return None` -> 
   HexagonalLattice   nsites, position of a square-grid point (exact: multiples of 1/2 and sqrt(3)/2),
         the rounding/decoding part of coord_to_index, delegation to BrickLattice(delete=True)
   LayeredLattice     nsites / index maps / np.block expression matched against fixed templates
+  IntegerLattice / TriangularLattice adjacency_matrix, vertex part of OddFaceCenteredLattice.adjacency_matrix:
+        the np.roll loops matched against the text the model (int_pairs_g / tri_diag_g) was written from
+  FullyConnectedLattice / CustomizedLattice adjacency_matrix and CustomizedLattice.__init__: templates
+        (CustomizedLattice may return the stored matrix or a copy of it)
 
 Floating point expressions are evaluated symbolically over Q(sqrt 3) as linear forms in integer
 sub-expressions; a float variable must be an integer, a multiple of 1/2 or a multiple of sqrt(3)/2.
